@@ -80,6 +80,27 @@ def run(ctx):
         q = qrcode.QRCode(version=v, border=b, box_size=box)
         q.add_data(data, optimize=0)
         key = f"{fname} {spec} v{v} box{box} border{b} {data.hex()}"
+        if len(reqs) % 5 == 2:
+            # an earlier rendering of ANOTHER symbol with the same factory that was abandoned half-way (its drawer raises after 40
+            # modules) must not leave anything behind that shows up in this image
+            class _Abort(Exception):
+                pass
+
+            class _Aborting(sq):
+                seen = 0
+
+                def drawrect(self, box_, is_active):
+                    type(self).seen += 1
+                    if type(self).seen > 40:
+                        raise _Abort()
+                    return super().drawrect(box_, is_active)
+            q0 = qrcode.QRCode(version=2, border=1, box_size=box)
+            q0.add_data(b"abandoned rendering", optimize=0)
+            try:
+                q0.make_image(image_factory=F, module_drawer=_Aborting())
+            except _Abort:
+                pass
+            key += " after-abandoned-render"
         try:
             im = q.make_image(image_factory=F, **kw)
             buf = io.BytesIO(); im.save(buf); saved = buf.getvalue()
